@@ -527,6 +527,7 @@ func UtxoValidateValueNotConservedUtxo(
 	if fee := tx.Fee(); fee != nil {
 		producedValue.Add(producedValue, fee)
 	}
+	newPools := make(map[common.PoolKeyHash]struct{})
 	for _, cert := range tx.Certificates() {
 		switch tmpCert := cert.(type) {
 		case *common.PoolRegistrationCertificate:
@@ -534,7 +535,10 @@ func UtxoValidateValueNotConservedUtxo(
 			if err != nil {
 				return err
 			}
-			if reg == nil {
+			// A new pool pays the deposit once: a further registration certificate
+			// for the same pool in this transaction is a re-registration
+			if _, seen := newPools[tmpCert.Operator]; reg == nil && !seen {
+				newPools[tmpCert.Operator] = struct{}{}
 				producedValue.Add(producedValue, new(big.Int).SetUint64(uint64(tmpPparams.PoolDeposit)))
 			}
 		case *common.StakeRegistrationCertificate:
